@@ -511,8 +511,11 @@ class World(EventDispatcher):
         """
         self._clear_dead_entities()
 
-        for processor in self._sorted_processors:
-            processor.process(dt)
+        # Processors may add or remove processors while they run:
+        # iterate over a snapshot and skip the ones removed meanwhile
+        for processor in tuple(self._sorted_processors):
+            if self._processors.get(type(processor)) is processor:
+                processor.process(dt)
 
     def clear(self):
         """Clear the entire database.
